@@ -1,8 +1,10 @@
 import FFSM2.Lemmas.HBlindWorld
 import FFSM2.Lemmas.SBlind
+import FFSM2.Lemmas.PBlindWorld
+import FFSM2.Lemmas.LBlindWorld
 import FFSM2.Props.History
 /-!
-# C19 over whole histories — TRANSITION_HISTORY is neutral
+# C19 over whole histories — every behavioural feature switch is neutral for programs that do not use the feature
 
 For every configuration, every callback behaviour and every history of API calls that does not use the calls the
 feature adds (`replayTransition` / `replayEnter`): running the history with the feature compiled out gives exactly
@@ -64,5 +66,69 @@ theorem C19_history_neutral_both (cfg : Cfg) (beh : Beh) (ops : List Op)
     (h1 : ∀ op ∈ ops, op.usesHistory = false) (h2 : ∀ op ∈ ops, op.usesSerialization = false) :
     noPrev (run (cfgOff (cfgS cfg)) beh ops).2 = noPrev (run cfg beh ops).2 := by
   rw [(C19_history_neutral_transition_history (cfgS cfg) beh ops h1).2, C19_history_neutral_serialization cfg beh ops h2]
+
+/-! ### PLANS -/
+
+/-- **C19 over whole histories — PLANS is neutral**: for every configuration, every behaviour whose callbacks
+    perform no plan action (no `succeed()` / `fail()`, no plan edit) and every history without the plan calls
+    (`succeed` / `fail` / `plan().…` from outside): compiling the feature out leaves every instance in exactly the
+    same state and produces exactly the same events, except that observations no longer carry a plan view.
+    (`Lemmas/PBlind.lean`: from a state with nothing of the feature outstanding — `Idle` — every step does the same
+    with and without the feature and stays idle; the plan step, `clearTaskStatus`, `planData.clear()` are no-ops
+    there.) -/
+theorem C19_history_neutral_plans (cfg : Cfg) (beh : Beh) (ops : List Op) (hb : PlanFree beh)
+    (h : ∀ op ∈ ops, op.usesPlans = false) :
+    run (cfgP cfg) beh ops = ((run cfg beh ops).1, noPlan (run cfg beh ops).2) :=
+  (runFrom_P cfg beh hb ops [] 0 worldIdle_nil h).1
+
+/-- … and such a program never has anything of the feature outstanding (so `planSucceeded` / `planFailed` have
+    nothing to report, cf. `C09_history_never_without_task`) -/
+theorem C19_history_plans_stay_idle (cfg : Cfg) (beh : Beh) (ops : List Op) (hb : PlanFree beh)
+    (h : ∀ op ∈ ops, op.usesPlans = false) (i : Nat) (c : Core) (hg : (run cfg beh ops).1.get i = some c) :
+    c.plan = [] ∧ c.planExists = false :=
+  let hw := (runFrom_P cfg beh hb ops [] 0 worldIdle_nil h).2 i c hg
+  ⟨hw.1, hw.2.1⟩
+
+/-- non-vacuity: guards redirecting and cancelling, a load, updates — with and without PLANS -/
+example :
+    let cfg : Cfg := { n := 3, L := 2, cap := 2, serialization := true, plans := true }
+    let beh : Beh := fun k => if k.method = .entryGuard ∧ k.sid = 1 then [.changeTo 2] else if k.method = .exitGuard ∧ k.sid = 2 then [.cancel] else []
+    let ops : List Op := [.construct 0 false, .construct 1 false, .immediateChangeTo 1 1, .changeTo 0 2, .load 0 1, .update 0, .react 1]
+    run (cfgP cfg) beh ops = ((run cfg beh ops).1, noPlan (run cfg beh ops).2) ∧
+    (run (cfgP cfg) beh ops).2 ≠ (run cfg beh ops).2 := by
+  decide
+
+/-! ### all three switches -/
+
+/-- **a program that uses none of the three features sees none of them**: callbacks without plan actions, a history
+    without the plan, serialization and replay calls — the build with PLANS, SERIALIZATION and TRANSITION_HISTORY all
+    compiled out produces the events of the build with all of them in, up to the two columns the features add to an
+    observation (plan view, `previousTransition()`) -/
+theorem C19_history_neutral_all (cfg : Cfg) (beh : Beh) (ops : List Op) (hb : PlanFree beh)
+    (h1 : ∀ op ∈ ops, op.usesPlans = false) (h2 : ∀ op ∈ ops, op.usesSerialization = false)
+    (h3 : ∀ op ∈ ops, op.usesHistory = false) :
+    noPrev (run (cfgOff (cfgS (cfgP cfg))) beh ops).2 = noPrev (noPlan (run cfg beh ops).2) := by
+  rw [(C19_history_neutral_transition_history (cfgS (cfgP cfg)) beh ops h3).2,
+    C19_history_neutral_serialization (cfgP cfg) beh ops h2, C19_history_neutral_plans cfg beh ops hb h1]
+
+/-! ### LOG_INTERFACE and VERBOSE_DEBUG_LOG -/
+
+/-- **C19 over whole histories — the logging switches are neutral**: for every configuration, behaviour and history
+    in which no logger is ever attached (no `attachLogger`, no instance constructed with one): whatever the two
+    logging switches are set to, the run is the same — the same events and the same world.  (What an *attached*
+    logger changes is `C16_history_noninterference`: log records only.) -/
+theorem C19_history_neutral_logging (l v : Bool) (cfg : Cfg) (beh : Beh) (ops : List Op)
+    (h : ∀ op ∈ ops, op.usesLogging = false) :
+    run (cfgL l v cfg) beh ops = run cfg beh ops :=
+  (runFrom_L l v cfg beh ops [] 0 worldNoLog_nil h).1
+
+/-- **all five behavioural switches at once**: a program that uses none of the features (no logger, no plan action
+    or plan call, no `save()` / `load()`, no replay call) behaves under the build with everything compiled out as
+    under the build with everything compiled in, up to the two observation columns the features add -/
+theorem C19_history_neutral_every_switch (l v : Bool) (cfg : Cfg) (beh : Beh) (ops : List Op) (hb : PlanFree beh)
+    (h0 : ∀ op ∈ ops, op.usesLogging = false) (h1 : ∀ op ∈ ops, op.usesPlans = false)
+    (h2 : ∀ op ∈ ops, op.usesSerialization = false) (h3 : ∀ op ∈ ops, op.usesHistory = false) :
+    noPrev (run (cfgOff (cfgS (cfgP (cfgL l v cfg)))) beh ops).2 = noPrev (noPlan (run cfg beh ops).2) := by
+  rw [C19_history_neutral_all (cfgL l v cfg) beh ops hb h1 h2 h3, C19_history_neutral_logging l v cfg beh ops h0]
 
 end FFSM2
